@@ -186,7 +186,7 @@ def _run(ctx):
         (r.get("sweep") or {}).get("accepted", 0) for r in ctx.cov["two_api_rows"].values() if isinstance(r.get("sweep"), dict))
     ctx.cov["rule"] = ("proof: finite theorems over the regenerated tables (every operator class, every return path of every Node function) + induction over programs in the abstract model; "
                        "cases = every Node function x path variant (scalar first / scalar second / both / neither operand, empty / non-empty list) called through both APIs with small valid arguments, "
-                       "plus the exhaustive sweep of split, batch::split, softmax_cross_entropy (dense, sparse) over 33 shapes (11 dim lists up to depth 3 x batch 1..3) x 8 axes incl. 7, 8, 9, 2^32-1 x n in 0..4 / id lists incl. empty and out of range / all shape pairs; "
+                       "plus the exhaustive sweep of split, batch::split, softmax_cross_entropy (dense, sparse) over 33 shapes (11 dim lists up to depth 3 x batch 1..3) x 8 axes incl. 7, 8, 9, 2^32-1 x n in {0..4, 2^31, 2^32-1} (batch::split also 6; any exception other than primitiv::Error counts as a failure) / id lists incl. empty and out of range / all shape pairs; "
                        "compared: accepted vs Error, Node::shape() before evaluation, values; non-trivial = calls both APIs accept")
     ctx.cov["input_distribution"] = {"row_calls": len(lines) - 1, "sweep": 1, "build_variants": variants}
     ctx.add_samples([lines[4], lines[9], lines[-2], "sweep"] + [o[:160] for o in outs[9:10]])
